@@ -34,6 +34,7 @@ class GenCfg:
         self.p_validator = rng.choice([0.0, 0.0, 0.15, 0.3])
         self.p_default = rng.choice([0.2, 0.5, 0.8])
         self.p_callable = rng.choice([0.0, 0.2, 0.5])
+        self.p_raw_default = 0.0
         self.p_required = rng.choice([0.0, 0.1, 0.3])
         self.p_name = rng.choice([0.0, 0.2])
         self.p_sensitive = rng.choice([0.0, 0.0, 0.3])
@@ -238,7 +239,10 @@ def gen_header_schema(rng, cfg, ctx_world=None):
     ``add_defaults`` because they need the model and the world)."""
     g = _Gen(rng, cfg, dns=(ctx_world.dns if ctx_world else ()))
     root = g.schema_node(cfg.depth)
-    return {"root": root, "types": g.types, "shared": g.shared}
+    # "style": how the schema objects are assembled from the descriptor (attribute / item / dotted item path, sections
+    # created explicitly or implicitly, validators registered before or after a section's fields): all spellings of
+    # the same public builder API, recorded in the case
+    return {"root": root, "types": g.types, "shared": g.shared, "style": g.rng.randrange(1 << 16)}
 
 
 # =============================================================================== traversal
@@ -340,6 +344,8 @@ def _field_validator(B, vid, tag):
             raise ValueError("rejected by the harness validator")
         if vid == "negk" and model._neg_predicate(value):
             raise KeyError("rejected by the harness validator (lookup failed)")
+        if vid == "tag":
+            return model.tag_transform(value)
         return value
     check.__name__ = "validator_%s" % vid
     return check
@@ -460,27 +466,76 @@ def _schema_validator(B, vid, tag):
     return check
 
 
-def _populate(B, sd, schema, node, prefix):
-    for f in node["fields"]:
-        tag = prefix + f["key"]
-        if f["kind"] == "schema":
-            sub = Schema(dynamic=f.get("dynamic", False), env=f.get("env"))
-            schema._add_field(f["key"], sub)          # attach first: top-down, env prefixes inherit
-            _populate(B, sd, sub, f, tag + ".")
-            B.fields[tag] = sub
-        elif f["kind"] == "configtype":
-            B.ensure(f["type"])
-            schema._add_field(f["key"], B.types[f["type"]])
-            B.fields[tag] = schema._fields[f["key"]]
+class _Scope:
+    """One schema under construction, reached the way user code reaches it."""
+
+    def __init__(self, get, parent=None, key=None, implicit=False):
+        self.get, self.parent, self.key, self.implicit = get, parent, key, implicit
+
+    def add_path(self, path, field):
+        if self.implicit:
+            self.parent.add_path(self.key + "." + path, field)       # schema["section.key"] = field creates the section
         else:
-            schema._add_field(f["key"], make_field(B, sd, f, tag))
+            self.get()[path] = field
+
+    def add(self, key, field, pick):
+        if self.implicit:
+            self.add_path(key, field)
+        elif pick % 2:
+            setattr(self.get(), key, field)
+        else:
+            self.get()[key] = field
+
+
+def _stable(text):
+    return sum(text.encode())
+
+
+def _register_validators(B, scope, node, prefix):
     for vid in node.get("validators", ()):
         fn = _schema_validator(B, vid, prefix.rstrip(".") or "<root>")
-        if len(prefix) % 2:
+        target = scope.get()
+        if len(prefix) % 2 and hasattr(type(target), "validator"):
             with _quiet():
-                schema.validator(fn)          # the older spelling of the same public API
+                target.validator(fn)          # the older spelling of the same public API
         else:
-            cc.validator(schema)(fn)
+            cc.validator(target)(fn)
+
+
+def _populate(B, sd, scope, node, prefix):
+    if isinstance(scope, Schema):
+        root = scope
+        scope = _Scope(lambda: root)
+    style = sd.get("style")
+    for f in node["fields"]:
+        key, tag = f["key"], prefix + f["key"]
+        pick = 0 if style is None else style + _stable(tag)
+        if f["kind"] == "schema":
+            plain = not f.get("dynamic") and f.get("env") is None and f["fields"]
+            if style is not None and plain and not f.get("validators") and pick % 5 == 0:
+                # a section that comes into being with its first field: schema["section.key"] = field
+                sub = _Scope(lambda scope=scope, key=key: scope.get()[key], scope, key, implicit=True)
+                _populate(B, sd, sub, f, tag + ".")
+            else:
+                obj = Schema(dynamic=f.get("dynamic", False), env=f.get("env"))
+                scope.add(key, obj, pick)          # attach first: top-down, env prefixes inherit
+                if style is not None and pick % 3 == 1:
+                    # user code that spells the section out each time: schema.section.key = field
+                    sub = _Scope(lambda scope=scope, key=key: getattr(scope.get(), key), scope, key)
+                else:
+                    sub = _Scope(lambda obj=obj: obj, scope, key)
+                first = style is not None and pick % 7 < 3
+                if first:
+                    _register_validators(B, sub, f, tag + ".")        # validators declared before the section's fields
+                _populate(B, sd, sub, dict(f, validators=()) if first else f, tag + ".")
+            B.fields[tag] = scope.get()[key]
+        elif f["kind"] == "configtype":
+            B.ensure(f["type"])
+            scope.add(key, B.types[f["type"]], pick)
+            B.fields[tag] = scope.get()[key]
+        else:
+            scope.add(key, make_field(B, sd, f, tag), pick)
+    _register_validators(B, scope, node, prefix)
 
 
 def build(sd):
@@ -502,7 +557,7 @@ def build(sd):
         if name in sd.get("shared", {}):
             B.shared[name] = sch
         else:
-            if int(name[1:]) % 2:
+            if int(name[1:]) % 2 or not hasattr(type(sch), "make_type"):
                 B.types[name] = cc.make_type(sch, name, module="simtypes", key_filename=sd["types"][name].get("key_filename"))
             else:
                 with _quiet():
